@@ -51,6 +51,9 @@ Lin == /\ E.ev = "lin"
 RespOK ==
   LET p == pend[E.g] IN
   \/ E.res = "skip"
+  \* Roots reads the immutable header and takes no lock: no linearization event; the answer is the
+  \* root list the store was created with ("roots"), or an error once the store is closed
+  \/ E.op = "roots" /\ E.res \in {"roots", "err"}
   \/ /\ p.state = "lin"
      /\ IF E.res = "set"
           THEN /\ p.exp = "set"
